@@ -6,10 +6,11 @@ package command
 // that is not IPv4 / IPv4 CIDR is refused before anything is sent.
 
 import (
-	"github.com/v-byte-cpu/sx/zzvenv"
-	"verif/vs"
 	"fmt"
+	"github.com/v-byte-cpu/sx/zzvenv"
 	"strings"
+	"time"
+	"verif/vs"
 
 	"github.com/v-byte-cpu/sx/pkg/ip"
 	"github.com/v-byte-cpu/sx/zzref"
@@ -223,7 +224,9 @@ func verifC02(c *drv.Ctx) {
 		c.R.Transitions += int64(x.Steps)
 		desc := fmt.Sprintf("%s %s10.0.1.16/28 --exclude %q", cmd.name, strings.Join(append(extra, ""), " "), trimLong(content))
 		rep := map[string]any{"part": "c02", "exclude_lines": trimLong(content), "command": cmd.name}
-		key := func(class string) string { return fmt.Sprintf("exclude:%s:%v%s", class, c02lineKey(cur, lines), strings.Join(extra, "")) }
+		key := func(class string) string {
+			return fmt.Sprintf("exclude:%s:%v%s", class, c02lineKey(cur, lines), strings.Join(extra, ""))
+		}
 		if _, err := vBasic(x); err != nil {
 			c.Fail(key("crash"), desc+": "+err.Error(), rep)
 			return
@@ -428,6 +431,98 @@ func verifC02(c *drv.Ctx) {
 			}
 		}
 		c.Outcome(fmt.Sprintf("live-exclude:%d", len(dests)))
+	}
+	// (v) a target far larger than any buffer of the pipeline (1024 addresses, queues hold 100) with
+	// exclusions: whatever is in flight between the address generator, the exclusion filter and the
+	// sender, a destination approved by the filter is the destination that goes on the wire
+	for _, cmd := range cmds {
+		for _, ex := range []string{"10.0.2.0/23\n10.0.0.7\n", "10.0.0.0/23\n10.0.3.255\n"} {
+			idx++
+			if !c.Mine(idx) || c.Expired() {
+				continue
+			}
+			var excl []zzref.RefNet
+			for _, l := range strings.Fields(ex) {
+				b, o, _ := zzref.RefTarget(l)
+				excl = append(excl, zzref.RefNet{Base: b, Ones: o})
+			}
+			sc := &vE2ESpec{Args: append(append([]string{}, cmd.args...), "--json", "--exclude", "{DIR}/ex.txt", "10.0.0.0/22"),
+				Files: map[string]string{"ex.txt": ex}, Positive: func(string, uint16) bool { return false }, Horizon: 20000000}
+			// a slow wire / slow peers: every queue of the pipeline fills up behind the sender
+			sc.World = func(w *zzvenv.World) {
+				vDefaultWorld(w)
+				w.WriteDelay = func(int) time.Duration { return time.Millisecond }
+			}
+			sc.ProbeDelay = func(string, uint16, int) time.Duration { return time.Millisecond }
+			if cmd.kind != "arp" && cmd.kind != "app" {
+				sc.Stdin = vGatewayCache
+			}
+			run, x := vE2EOnce(sc)
+			c.Eval(1)
+			c.Nontrivial(1)
+			c.R.Transitions += int64(x.Steps)
+			desc := fmt.Sprintf("%s 10.0.0.0/22 --exclude %q", cmd.name, strings.Fields(ex))
+			rep := map[string]any{"part": "c02", "exclude_lines": strings.Fields(ex), "command": cmd.name, "target": "10.0.0.0/22"}
+			key := "exclude-large:" + cmd.name + ":" + strings.Fields(ex)[0]
+			if _, err := vBasic(x); err != nil {
+				c.Fail(key+":crash", desc+": "+err.Error(), rep)
+				continue
+			}
+			if run.Err != "" {
+				c.Fail(key+":refused", desc+": refused: "+run.Err, rep)
+				continue
+			}
+			dests, bad := c02dests(cmd, run)
+			if bad != "" {
+				c.Fail(key+":malformed", desc+": "+bad, rep)
+				continue
+			}
+			per := len(dests) // probes per address: every port of the command's list
+			got := map[uint32]int{}
+			for _, d := range dests {
+				got[d]++
+			}
+			base, _, _ := zzref.RefTarget("10.0.0.0/22")
+			want := 0
+			for i := uint32(0); i < 1024; i++ {
+				in := false
+				for _, n := range excl {
+					if n.Contains(base + i) {
+						in = true
+					}
+				}
+				if !in {
+					want++
+				}
+			}
+			per /= want
+			if per == 0 {
+				per = 1
+			}
+			for i := uint32(0); i < 1024; i++ {
+				a := base + i
+				in := false
+				for _, n := range excl {
+					if n.Contains(a) {
+						in = true
+					}
+				}
+				if in && got[a] > 0 {
+					c.Fail(key+":excluded-probed", fmt.Sprintf("%s: %s is covered by the exclusion list but was probed", desc, zzref.RefIPString(a)), rep)
+					break
+				}
+				if !in && got[a] != per {
+					c.Fail(key+":unexcluded-dropped", fmt.Sprintf("%s: %s is not excluded but was probed %d times (others %d)", desc, zzref.RefIPString(a), got[a], per), rep)
+					break
+				}
+				delete(got, a)
+			}
+			for a := range got {
+				c.Fail(key+":outside", fmt.Sprintf("%s: probe to %s outside the target set", desc, zzref.RefIPString(a)), rep)
+				break
+			}
+			c.Outcome(fmt.Sprintf("excl-large:%d", len(dests)))
+		}
 	}
 	c.Set("cases", idx)
 }
